@@ -35,15 +35,16 @@ Definition un_filter (x : sx) : option ffilter :=
   mk_filter (map un_path (un_list (nth_sx 0 x))) (un_opt un_gtype (nth_sx 1 x))
             (un_strs (nth_sx 2 x)) (un_strs (nth_sx 3 x)) (un_opt un_fn (nth_sx 4 x)).
 
-(* tree: [0; name] or [1; name; link; children] *)
+(* tree: [0; name] or [0; name; 1] (dangling link) or [1; name; link; children] *)
 Fixpoint un_tree (x : sx) : tree :=
   match x with
-  | A _ => File []
+  | A _ => File [] false
   | L l =>
       match l with
       | _ :: n :: lk :: L ch :: _ => Dir (un_str n) (un_bool lk) (map un_tree ch)
-      | _ :: n :: _ => File (un_str n)
-      | _ => File []
+      | _ :: n :: b :: _ => File (un_str n) (un_bool b)
+      | _ :: n :: _ => File (un_str n) false
+      | _ => File [] false
       end
   end.
 Definition un_fsys (x : sx) : fsys :=
